@@ -310,6 +310,16 @@ const HOSTILE_NUMS: &[&str] = &[
     "33554433",
     "1073741824",
     "16777217",
+    // just outside the documented clamps of the difficulty settings and slider fields
+    "11",
+    "10.5",
+    "-3.5",
+    "-1",
+    "25",
+    "0.3",
+    "3.7",
+    "8.5",
+    "0.45",
 ];
 
 fn curve(rng: &mut Rng, x: i64, y: i64, zoo: bool) -> String {
@@ -502,6 +512,7 @@ pub fn generate(rng: &mut Rng, opts: &GenOpts) -> OsuFile {
     };
 
     let mut t = t0;
+    let ms_jitter = rng.chance(0.08);
     let mut bl = base_bl.clamp(6.0, 60000.0);
     let (mut x, mut y) = (256i64, 192i64);
     let divisors: &[f64] = match p {
@@ -611,7 +622,11 @@ pub fn generate(rng: &mut Rng, opts: &GenOpts) -> OsuFile {
             Profile::Limits if rng.chance(0.2) => (*rng.pick(HOSTILE_NUMS)).to_string(),
             Profile::Ties if rng.chance(0.1) => (*rng.pick(&["-0", "0", "0.0", "-0.0"])).to_string(),
             _ => {
-                if rng.chance(0.85) {
+                if ms_jitter {
+                    // interval differences of a few milliseconds: comparisons like `|a - b| <= 5 ms` get exercised on both
+                    // sides of (and exactly on) their boundary
+                    fnum(t.round() + *rng.pick(&[0.0, 0.0, 0.0, 5.0, -5.0, 4.0, 6.0, 1.0, 2.0, 3.0, 10.0, -10.0, 25.0]))
+                } else if rng.chance(0.85) {
                     fnum(t.round())
                 } else {
                     fnum(t)
@@ -624,12 +639,31 @@ pub fn generate(rng: &mut Rng, opts: &GenOpts) -> OsuFile {
             0 => ObjKind::Circle,
             1 => {
                 let zoo = matches!(p, Profile::SliderZoo | Profile::Limits);
-                let slides: i64 = if zoo {
+                // a slider that lasts for weeks (1 BPM, 0.1x velocity, long path, many repeats): integer time arithmetic
+                // in the conversions has to cope with durations around and beyond i32::MAX milliseconds
+                let giant = zoo && rng.chance(0.04);
+                if giant {
+                    for (blv, un) in [("60000", true), ("-1000", false)] {
+                        f.timing.push(TimingLine {
+                            time: fnum(t.round()),
+                            beat_len: blv.to_string(),
+                            meter: "4".into(),
+                            uninherited: Some(un),
+                            effects: Some(0),
+                        });
+                    }
+                    bl = 60000.0;
+                }
+                let slides: i64 = if giant {
+                    *rng.pick(&[2, 20, 100, 1])
+                } else if zoo {
                     *rng.pick(&[1, 1, 2, 3, 0, -1, 10, 50, 100, 101, 2, 4])
                 } else {
                     *rng.pick(&[1, 1, 1, 2, 2, 3, 4])
                 };
-                let len: f64 = if p == Profile::Late {
+                let len: f64 = if giant {
+                    *rng.pick(&[2000.0, 20000.0, 9000.0])
+                } else if p == Profile::Late {
                     *rng.pick(&[0.5, 1.0, 2.0, 5.0, 20.0, 100.0])
                 } else if zoo {
                     *rng.pick(&[0.0, 1.0, 50.0, 100.0, 500.0, 2000.0, 20000.0, -5.0, 0.5, 131072.0, 140.0])
